@@ -4,7 +4,7 @@
 set -e
 cd "$(dirname "$0")"
 mkdir -p build evidence
-if [ -x tools/regen_all.py ]; then /venv/bin/python tools/regen_all.py; fi
+/venv/bin/python tools/regen_all.py
 cd coq
 coq_makefile -f _CoqProject -o Makefile >/dev/null
 timeout 3000 make -j16 2>&1 | grep -v '^\(Axioms:\|  \|Classical\|Functional\|COQDEP\|Closed\)' | tail -50
